@@ -70,7 +70,7 @@ def m1_generate(rep, tier):
 
 
 def collect(rep, pool, tier, seed, perturb, nseeds, maxn=2, rich=False, sim=None, label='', counts=None, types=None,
-            only_twosided=False, numinsts=None):
+            only_twosided=False, numinsts=None, every=1):
     """Runs MC_Gen, replays vectors, returns list of traces of accepted runs."""
     traces = []
     seen = set()
@@ -90,6 +90,8 @@ def collect(rep, pool, tier, seed, perturb, nseeds, maxn=2, rich=False, sim=None
         if only_twosided and 'twopl' not in rec['given']:
             return False
         h = int(hashlib.sha1(k.encode()).hexdigest()[:6], 16)
+        if every > 1 and (h + seed) % every:
+            return False
         rec['_seeds'] = [seed * 1000 + h % 997 + i for i in range(nseeds)]
         return True
     res = engine.tlc_replay(rep, pool, 'MC_Gen', replay_args,
